@@ -201,11 +201,13 @@ func (c *Ctx) c18Attr() {
 	}
 	// source: Extract #1 (val) of TagAttr
 	var tagAttr *ssa.Call
-	eng.EachInstr(fn, func(in ssa.Instruction) {
-		if call, ok := in.(*ssa.Call); ok && strings.HasSuffix(eng.CalleeName(call.Common()), "html.Tokenizer).TagAttr") {
-			tagAttr = call
-		}
-	})
+	for g := range p.SyncReach(fn) {
+		eng.EachInstr(g, func(in ssa.Instruction) {
+			if call, ok := in.(*ssa.Call); ok && strings.HasSuffix(eng.CalleeName(call.Common()), "html.Tokenizer).TagAttr") {
+				tagAttr = call
+			}
+		})
+	}
 	if tagAttr == nil {
 		r.Bad("C18/ATTR", "tag-rewriter", p.Pos(fn.Pos()), "the tag rewriter no longer iterates attributes with Tokenizer.TagAttr")
 		return
@@ -241,6 +243,15 @@ func (c *Ctx) c18Attr() {
 						tainted[x] = true
 						work = append(work, x)
 					}
+				case eng.StaticCallee(x.Common()) != nil && eng.FuncPkgPath(eng.StaticCallee(x.Common())) == eng.Mod+"/"+sanRel:
+					// a package helper: the taint continues in its parameter and in its result
+					g := eng.StaticCallee(x.Common())
+					for i, a := range x.Call.Args {
+						if a == v && i < len(g.Params) && !tainted[g.Params[i]] {
+							tainted[g.Params[i]] = true
+							work = append(work, g.Params[i])
+						}
+					}
 				case name == "builtin.append":
 					leaks = append(leaks, "attribute value appended to the output at "+p.InstrPos(x)+" without html.EscapeString")
 				case name == "strings.ToLower" || name == "builtin.len":
@@ -248,6 +259,14 @@ func (c *Ctx) c18Attr() {
 					leaks = append(leaks, "attribute value passed to "+name+" at "+p.InstrPos(x))
 				}
 			case *ssa.BinOp, *ssa.DebugRef:
+			case *ssa.Return:
+				// a helper returns the raw value: it is tainted at every call site
+				for _, cs := range p.StaticCallSites(x.Parent()) {
+					if cv, ok := cs.Instr.(*ssa.Call); ok && !tainted[cv] {
+						tainted[cv] = true
+						work = append(work, cv)
+					}
+				}
 			case *ssa.Store:
 				leaks = append(leaks, "attribute value stored at "+p.InstrPos(x))
 			}
@@ -271,7 +290,7 @@ func (c *Ctx) c18Attr() {
 				continue
 			}
 			pred := ph.Block().Preds[i]
-			for _, b := range fn.Blocks {
+			for _, b := range esc.Parent().Blocks {
 				for k := 0; k < len(b.Succs) && len(b.Succs) == 2; k++ {
 					rel, ok := eng.EdgeRel(b, k)
 					if !ok || rel.Op != token.EQL {
@@ -282,7 +301,7 @@ func (c *Ctx) c18Attr() {
 					if !isC || s != "style" || !isCall || eng.CalleeName(lc.Common()) != "strings.ToLower" {
 						continue
 					}
-					if cv, ok := lc.Call.Args[0].(*ssa.Convert); !ok || cv.X != key {
+					if cv, ok := lc.Call.Args[0].(*ssa.Convert); !ok || (cv.X != key && p.Actual(cv.X) != key) {
 						continue
 					}
 					if eng.EdgeDominates(b, k, pred) || b.Succs[k] == pred {
@@ -350,19 +369,26 @@ func (c *Ctx) c18CSS() {
 				if !ok || !pol || !eng.EdgeDominates(b, k, at) {
 					continue
 				}
-				e, ok := v.(*ssa.Extract)
-				if !ok || e.Index != 1 {
-					continue
-				}
-				lk, ok := e.Tuple.(*ssa.Lookup)
-				if !ok || !lk.CommaOk {
-					continue
-				}
-				if u, ok := lk.X.(*ssa.UnOp); !ok || u.X != ssa.Value(allowedG) {
-					continue
-				}
-				if lc, ok := lk.Index.(*ssa.Call); ok && eng.CalleeName(lc.Common()) == "strings.ToLower" && isTokenValue(lc.Call.Args[0]) {
+				if isAllowLookup(v, allowedG, isTokenValue) {
 					return true
+				}
+				// a package helper `func(name string) bool` that returns that lookup's ok
+				if hc, ok := v.(*ssa.Call); ok && len(hc.Call.Args) >= 1 {
+					if rets, g := eng.ReturnedValues(hc, 0); g != nil && len(rets) > 0 {
+						all := true
+						for _, rv := range rets {
+							prmIs := func(x ssa.Value) bool {
+								i := eng.ParamIndex(x)
+								return i >= 0 && i < len(hc.Call.Args) && isTokenValue(hc.Call.Args[i])
+							}
+							if !isAllowLookup(rv, allowedG, prmIs) {
+								all = false
+							}
+						}
+						if all {
+							return true
+						}
+					}
 				}
 			}
 		}
@@ -659,4 +685,21 @@ func (c *Ctx) c18UI() {
 	} else {
 		r.Ok("C18/UI", "webui.MailboxMessage", p.Pos(fn.Pos()), "HTML body only through sanitize.HTML (%d reads), text body only through TextToHTML (%d reads)", nH, nT)
 	}
+}
+
+// isAllowLookup: v is the ok flag of allowedProperties[strings.ToLower(x)] with isName(x).
+func isAllowLookup(v ssa.Value, allowedG *ssa.Global, isName func(ssa.Value) bool) bool {
+	e, ok := v.(*ssa.Extract)
+	if !ok || e.Index != 1 {
+		return false
+	}
+	lk, ok := e.Tuple.(*ssa.Lookup)
+	if !ok || !lk.CommaOk {
+		return false
+	}
+	if u, ok := lk.X.(*ssa.UnOp); !ok || u.X != ssa.Value(allowedG) {
+		return false
+	}
+	lc, ok := lk.Index.(*ssa.Call)
+	return ok && eng.CalleeName(lc.Common()) == "strings.ToLower" && isName(lc.Call.Args[0])
 }
